@@ -207,3 +207,50 @@ PROPERTIES["C15"] = {
                "thorough": {"grids": "all patterns on 3x4 and 6x6; looped 4x4; k=4 on 3x3; 3 meshes"}},
     "deadline": {"quick": 600, "thorough": 3000},
 }
+
+
+SPL_ASSUME = FLOW_ASSUME[1:3] + [
+    "parameter points: K in {0, 1e-3, 1} (scalar and two-valued array), m in {0.5, 1 (,0)}, n in {0.5, 1, 2 (,0.8, 1.5, 4)}, "
+    "dt in {0, 1, 1e6 (,1e12)}, tolerance in {1e-3, 1e-9}; drainage area = accumulate(1) / ones / 3-level pattern; "
+    "the eroded elevation is either the one update_routes returned or the raw input (unresolved lakes)",
+    "graphs with non-finite partition weights are C05's business and skipped",
+]
+PROPERTIES["C12"] = {
+    "engine": "sse",
+    "level_text": SSE_LEVEL,
+    "level_note": "routed graphs over 3-level fields on profile / raster / mesh grids x 5 routing programs x 38 (quick) "
+                  "/ 146 (thorough) parameter points; 'slope reversed' is judged only for nodes that were actually lowered",
+    "technique": SSE_TECH,
+    "harnesses": [{"name": "spl", "families": True}],
+    "rule": "worlds = (grid, mask/base deviation, elevation pattern); evaluations add (value map, program, parameter "
+            "point); non-trivial = some node eroded; distinct = digest of the erosion field",
+    "assumptions": SPL_ASSUME,
+    "bounds": {"quick": {"fields": "all 3^6 on profiles and 2x3, every 7th/23rd of 3^9 on 3x3 and meshes"},
+               "thorough": {"fields": "all 3^9 on 3x3 and the first mesh, 4x4 two-level every 7th"}},
+    "deadline": {"quick": 600, "thorough": 3000},
+}
+PROPERTIES["C13"] = dict(PROPERTIES["C12"])
+PROPERTIES["C13"].update({
+    "level_note": "same worlds as C12; for every node that is not limited (new elevation strictly above the floor) the "
+                  "backward-Euler residual is recomputed in long double from the returned erosion and the graph tables; "
+                  "allowance = 1e-10 x (sum of |terms| and their sensitivities) + Newton tolerance for n != 1",
+    "rule": "worlds as C12; non-trivial = at least one judged (not limited) node eroded; distinct = digest of the erosion field",
+})
+PROPERTIES["C14"] = {
+    "engine": "sse",
+    "level_text": "exhaustive enumeration of (shape, spacing, border status, K mode and value, time step) x every unit "
+                  "basis field, pair sums, scaled fields and all 3-level fields on 3x3; every erode() result is compared "
+                  "with a direct dense solve (partial pivoting, long double) of the two half-step systems assembled from "
+                  "the discretisation; linearity and scalar/uniform agreement judged on the pairs",
+    "level_note": "the eroder is linear in the elevation, so agreement on a basis + measured additivity/homogeneity fixes "
+                  "the operator for each parameter point; K, dt and spacings are from listed finite sets; tolerance "
+                  "1e-10 x (1 + largest intermediate magnitude)",
+    "technique": SSE_TECH,
+    "harnesses": [{"name": "adi"}],
+    "rule": "worlds = parameter points (shape, spacing, border, K mode/pattern, K, dt); evaluations = fields judged; "
+            "non-trivial = non-zero interior erosion; distinct = digest of the erosion field",
+    "assumptions": ["shapes 3x3 3x4 4x3 4x5 5x4 (+5x5 3x6 6x3), spacings (1,1) (1,2) (0.5,3), K in {1e-3,1,1e3}, "
+                    "dt in {0,1e-3,1,1e6}; variable K over {K,4K}: all assignments on 3x4 (every 37th in quick)"],
+    "bounds": {"quick": {"variable K patterns on 3x4": "every 37th of 4095"}, "thorough": {"variable K patterns on 3x4": "all 4095"}},
+    "deadline": {"quick": 600, "thorough": 3000},
+}
